@@ -58,6 +58,7 @@ var c13Queries = []string{
 	"SELECT a, SPINASYNC.vid(a) FROM t WHERE a > ?",
 	"SELECT * FROM t x PARALLEL JOIN t y ON x.a <= y.a WHERE x.a > ?",
 	"SELECT a, (SELECT ASYNC.vid(p) AS w FROM items) AS s FROM t WHERE a > ?",
+	"SELECT x.a AS a FROM (WITH c AS (SELECT a FROM t WHERE a > ?) SELECT a FROM c) x",
 }
 
 // H_C13_queries: two queries run concurrently on separate documents and on
@@ -70,7 +71,7 @@ func H_C13_queries() {
 	// own goroutines are paired with the plain filter and (thorough tier,
 	// except the nested ASYNC subquery whose self-pair has >10^6 schedules)
 	// with themselves
-	if q2 > q1 || (q1 >= 4 && q2 != 0 && (q2 != q1 || verif.Tier() == 0 || q1 == 7)) {
+	if q2 > q1 || (q1 >= 4 && q2 != 0 && (q2 != q1 || (verif.Tier() == 0 && q1 != 8) || q1 == 7)) {
 		verif.Assume(false)
 	}
 	RegisterFunction("vid", idFunc)
